@@ -56,25 +56,24 @@ class Case:
                  "sim", "sl", "variant", "seed", "extra")
 
 
+def scn_cmds(scn, op, groups, inv0):
+    return A.derive_cmds(op, groups, inv0, scn.dir_arg(), use_rename=0 if getattr(scn, "fake_mount", False) else 1)
+
+
 def run_case(env, scn, op, spec, inv0, cmds, sim=False, no_lock=False):
     """spec: dict(fail=(k,E)|None, fail2=(k,E)|None, kill=(k,'before'|'after')|None)"""
     scn.build()
     inv0 = A.inventory(scn.base)          # inode numbers differ between rebuilds: take the inventory of THIS build
     r = A.run_shim(env["fclones"], env["shim"], A.cli_args(op, scn, no_lock), scn.report, scn.base,
                    fail=spec.get("fail"), fail2=spec.get("fail2"), kill=spec.get("kill"), sim_ficlone=sim,
-                   cwd=getattr(scn, "cwd", None))
+                   cwd=getattr(scn, "cwd", None), env_extra=scn.env_extra())
     c = Case()
     c.scn, c.op, c.spec, c.inv0, c.cmds, c.res, c.sim, c.sl = scn, op, spec, inv0, cmds, r, sim, not no_lock
     c.inv1 = A.inventory(scn.base)
+    # model-free: the number of failures the shim really injected (lines marked F in the raw trace)
+    c.nfaults = sum(1 for f in r["trace"] if len(f) > 4 and f[4] == "F")
+    c.extra = {}
     vs = victims_of(cmds)
-    c.calls, c.kill = A.abstract_trace(r["trace"], vs)
-    oracle = A.oracle_from_calls(c.calls)
-    crash = None
-    if c.kill:
-        crash = "%d:%s" % (c.kill["idx"], c.kill["stage"])
-        if c.kill.get("env_fail"):
-            oracle[c.kill["idx"]] = (c.kill["env_fail"], None)
-    c.nfaults = sum(1 for x in c.calls if x["inj"] and x["res"] != "ok")
     qs = set(inv0) | {A.canon_temp(p, vs) for p in c.inv1}
     for cm in cmds:
         if "tmp" in cm:
@@ -82,7 +81,19 @@ def run_case(env, scn, op, spec, inv0, cmds, sim=False, no_lock=False):
         if "tgt" in cm:
             qs.add(os.path.normpath(cm["tgt"]))
     c.queries = sorted(qs)
-    c.line = A.model_line(c.sl, inv0, cmds, oracle, crash, c.queries)
+    try:
+        c.calls, c.kill = A.abstract_trace(r["trace"], vs)
+        oracle = A.oracle_from_calls(c.calls)
+        crash = None
+        if c.kill:
+            crash = "%d:%s" % (c.kill["idx"], c.kill["stage"])
+            if c.kill.get("env_fail"):
+                oracle[c.kill["idx"]] = (c.kill["env_fail"], None)
+        c.line = A.model_line(c.sl, inv0, cmds, oracle, crash, c.queries)
+    except Exception as e:      # the trace does not even parse into the model's calls: still a case for the property oracle
+        c.calls, c.kill = [], None
+        c.extra["abstraction_error"] = repr(e)
+        c.line = A.model_line(c.sl, inv0, cmds, {}, None, c.queries)
     return c
 
 
@@ -161,7 +172,7 @@ def property_oracle(c):
 def describe(c):
     return {"scenario": c.scn.describe(), "op": c.op, "fault": c.spec, "simulated_ficlone": c.sim,
             "cli": [c.res and "fclones"] + A.cli_args(c.op, c.scn), "report": c.scn.report,
-            "env": {"RAYON_NUM_THREADS": "1", "LD_PRELOAD": ".cache/fsshim.so", "FSSHIM_SCOPE": c.scn.base},
+            "env": dict({"RAYON_NUM_THREADS": "1", "LD_PRELOAD": ".cache/fsshim.so", "FSSHIM_SCOPE": c.scn.base}, **c.scn.env_extra()),
             "libc_trace": ["\t".join(f) for f in c.res["trace"]][-60:], "stderr": c.res["stderr"][-1500:],
             "model_input": c.line}
 
@@ -174,7 +185,7 @@ def explore(env, make_scn, op, tier_quick, rng, errnos, shard, nshards):
     groups = scn.make_report(env["fclones"])
     scn.build()
     inv0 = A.inventory(scn.base)
-    cmds = A.derive_cmds(op, groups, inv0, scn.dir_arg())
+    cmds = scn_cmds(scn, op, groups, inv0)
     out = []
     sims = [False, True] if op == "dedupe" else [False]
     for sim in sims:
@@ -182,10 +193,13 @@ def explore(env, make_scn, op, tier_quick, rng, errnos, shard, nshards):
         if shard == 0:
             out.append(c0)
         m = max([int(f[0]) for f in c0.res["trace"]] or [0])
+        in_copy = {k for x in c0.calls if x["kind"] == "copy" for k in x["ks"]}
         for k in range(1, m + 1):
             if k % nshards != shard:
                 continue
-            if tier_quick:
+            if k in in_copy:
+                es = errnos          # open of the target, fchmod, copy_file_range...: every errno, also in the quick tier
+            elif tier_quick:
                 # two of the five errnos per position; EOPNOTSUPP (swallowed by maybe_lock, fallback inside fs::copy)
                 # on every other position
                 es = [errnos[k % 4], "EOPNOTSUPP"] if (k // nshards) % 2 == 0 else [errnos[(k + 1) % 4], errnos[(k + 3) % 4]]
@@ -218,8 +232,9 @@ def explore(env, make_scn, op, tier_quick, rng, errnos, shard, nshards):
                     if x["kind"] == "open" and ks:
                         break
                     ks += x["ks"]
+            copy_ks = {k for x in cb.calls if x["kind"] == "copy" for k in x["ks"]}
             for k2 in ks:
-                es = [errnos[k2 % 5], errnos[(k2 + 2) % 5]] if tier_quick else errnos
+                es = errnos if (k2 in copy_ks or not tier_quick) else [errnos[k2 % 5], errnos[(k2 + 2) % 5]]
                 for e in es:
                     out.append(run_case(env, scn, op, dict(base, fail2=(k2, e)), inv0, cmds))
                 for when in ("before", "after"):
@@ -260,7 +275,8 @@ def run(ctx):
         groups = scn.make_report(env["fclones"])
         scn.build()
         inv0 = A.inventory(scn.base)
-        cmds = A.derive_cmds(rp["op"], groups, inv0, scn.dir_arg())
+        scn.fake_mount = d.get("fake_mount", False)
+        cmds = scn_cmds(scn, rp["op"], groups, inv0)
         spec = {k: (tuple(v) if isinstance(v, list) else v) for k, v in rp["fault"].items()}
         cases = [run_case(env, scn, rp["op"], spec, inv0, cmds, sim=rp.get("simulated_ficlone", False))]
     else:
@@ -269,15 +285,19 @@ def run(ctx):
         jobs = []
         for i in range(nscn):
             seed = ctx.rng.next()
-            for op in A.OPS:
+            for op in A.OPS + ["move_copy"]:
                 inside = (op == "move" and i % 2 == 1)
+                real_op = "move" if op == "move_copy" else op
 
                 def make_scn(suffix, seed=seed, i=i, op=op, inside=inside):
                     # every (op, shard) gets its own copy of the scenario (own directory): jobs run in parallel
-                    return gen_scenario(core.SplitMix64(seed), "s%d_%s%s" % (i, op, suffix), ctx.scratch, inside_dir=inside,
-                                        small=ctx.quick)
+                    scn = gen_scenario(core.SplitMix64(seed), "s%d_%s%s" % (i, op, suffix), ctx.scratch, inside_dir=inside,
+                                       small=ctx.quick)
+                    # move_copy: DIR registered as another mount point (hook FCLONES_VERIF_MOUNTS) => use_rename = false
+                    scn.fake_mount = (op == "move_copy")
+                    return scn
                 for sh in range(nshards):
-                    jobs.append((make_scn, op, ctx.rng.fork(), sh))
+                    jobs.append((make_scn, real_op, ctx.rng.fork(), sh))
         with ThreadPoolExecutor(max_workers=core.NCPU) as ex:
             res = list(ex.map(lambda j: explore(env, j[0], j[1], ctx.quick, j[2], errnos, j[3], nshards), jobs))
         cases = [c for r in res for c in r]
@@ -293,7 +313,7 @@ def run(ctx):
         elif spec and "fail2" in spec and spec["fail"][1] == "EXDEV" and c.op == "move" and any(x["kind"] == "copy" for x in c.calls):
             kind = "rename_EXDEV+" + spec["fail2"][1]
         ctx.distinct((c.scn.sid, c.op, repr(spec), c.sim), bool(spec))
-        ctx.bump("operation", c.op + ("+simulated_ficlone" if c.sim else ""))
+        ctx.bump("operation", c.op + ("+simulated_ficlone" if c.sim else "") + ("_by_copy(other_mount)" if getattr(c.scn, "fake_mount", False) else ""))
         ctx.bump("fault", kind)
         ctx.bump("groups", len(c.scn.groups))
         ctx.bump("commands_in_script", len(c.cmds))
@@ -312,6 +332,9 @@ def run(ctx):
             ctx.bump("fault_tolerated_inside_std_fs_copy", "yes")
         for kind_, text in property_oracle(c):
             ctx.violation({"kind": kind_, "op": c.op}, "C05 violated by the implementation: " + text, describe(c), found_input=True)
+        if c.extra.get("abstraction_error"):
+            corr.append((c, "trace", "the libc trace could not be abstracted to the model's calls: " + c.extra["abstraction_error"]))
+            continue
         try:
             mo = A.parse_model_out(o)
         except Exception as e:
